@@ -30,6 +30,7 @@ var clientAlphabet = []SIn{
 	vs("new", "S1", 9, 0, nil, nil, nil, "", "", nil),                                          // 15 regression
 	vs("finishing", "S1", 9, 0, nil, nil, nil, "", "", nil),                                    // 16
 	vs("negotiating", "", 9, 0, []string{"tls"}, []string{"none"}, nil, "", "", nil),           // 17 offer without id
+	vs("authenticating", "S2", 9, 0, nil, nil, nil, "", "", ip(9)),                             // a round trip under another session id
 	vs("negotiating", "S1", 9, 0, nil, nil, nil, "rot13", "none", nil),                         // a confirmation of an encryption nobody knows
 	{Kind: "data"}, // 18
 	{Kind: "bad"},  // 19
@@ -48,7 +49,7 @@ func init() {
 	register("C08", func(env *Env) error {
 		env.Header = "From Coq Require Import List String.\nImport ListNotations.\nOpen Scope string_scope.\nFrom Lime Require Import Base.Res Hs.Types Hs.Client Corr.C08."
 		env.ShardSize = 250
-		env.Rule = "every server script up to the depth bound over a 22-letter alphabet (every session state incl. regressions, id variants, offers with normal/empty/unknown options, matching/different/empty/unknown confirmations, scheme lists, round-trip data, data envelope, undecodable bytes, EOF), extended breadth-first while the client is still waiting, x client configurations (selector and authenticator choices incl. the library defaults, with/without TLS configuration, TLS handshake succeeding or not), against the real ClientChannel.EstablishSession over an injected in-memory TCP connection. Non-trivial: the client sent at least two envelopes. Distinct by (configuration, script)."
+		env.Rule = "every server script up to the depth bound over a 23-letter alphabet (every session state incl. regressions, id variants, offers with normal/empty/unknown options, matching/different/empty/unknown confirmations, scheme lists, round-trip data, data envelope, undecodable bytes, EOF), extended breadth-first while the client is still waiting, x client configurations (selector and authenticator choices incl. the library defaults, with/without TLS configuration, TLS handshake succeeding or not), against the real ClientChannel.EstablishSession over an injected in-memory TCP connection. Non-trivial: the client sent at least two envelopes. Distinct by (configuration, script)."
 		var rc CCase
 		if ok, err := env.ReplayDesc(&rc); err != nil {
 			return err
